@@ -18,8 +18,8 @@ Laws of `processFile env budget src` (`Model/Cli.lean`), each for every `env`, `
   error at end of input (`trailing_blank_lines`);
 * **L4** the output depends on the SEQUENCE of statements only, not on how the statements are grouped
   into per-line batches (`statement_batching_irrelevant`), and not on their source positions
-  (`layout_irrelevant`) — with the exception of the content of the output file of a FAILED run
-  (`failed_run_file_depends_on_batching`);
+  (`layout_irrelevant`) — a FAILED run included: it leaves behind what the statements before the failing
+  one wrote, however they are grouped (`failed_run_file_independent_of_batching`);
 * **L5** (lexer) two lines joined by whitespace lex to the tokens of the first followed by the tokens of
   the second, columns shifted (`joined_lines`) — provided the first contains no comment
   (`joined_after_comment_differs`);
@@ -150,74 +150,49 @@ theorem trailing_newlines (env : Env) (budget : Option Nat) (src : Bytes) (n : N
 /-! ## L4. grouping of statements into batches; source positions -/
 
 /-- **L4 on plans.** Two plans with the same statements in the same order (however distributed over the
-batches, i.e. over the lines) and the same way of ending: the same outcome — success, or the same error
-of the same statement at the same position; complete equality of the run when no statement fails; and in
-any case the records emitted by one run are an initial segment of those emitted by the other. -/
+batches, i.e. over the lines) and the same way of ending give the SAME RUN: the same outcome — success, or
+the same error of the same statement at the same position —, the same output file, the same records, the
+same warnings.  This holds for failing runs too: a failing statement ends the run in the state in which
+it was executed, so the statements before it have taken effect whether or not they are in its batch. -/
 theorem execPlan_regroup (env : Env) (budget : Option Nat) (p q : Plan)
     (hb : p.batches.flatten = q.batches.flatten) (hf : p.final = q.final) :
-    (execPlan env budget p).outcome = (execPlan env budget q).outcome ∧
-    ((∃ st', addStmts env (st0 budget) p.batches.flatten = .ok st') →
-      execPlan env budget p = execPlan env budget q) ∧
-    ((execPlan env budget p).emitted <+: (execPlan env budget q).emitted ∨
-     (execPlan env budget q).emitted <+: (execPlan env budget p).emitted) := by
+    execPlan env budget p = execPlan env budget q := by
   unfold execPlan
   rw [hf]
-  exact ⟨execFrom_flatten_outcome hb, fun ⟨_, h⟩ => execFrom_flatten_ok hb h, execFrom_flatten_emitted hb⟩
+  exact execFrom_regroup hb
 
 /-- **L4.** `processFile` on two sources that yield the same statements in the same order (however
 grouped by lines) and whose front ends end alike (in particular: both reach end of input and are
-accepted) report the same outcome; a successful run is the same in every respect (output file,
-records, warnings); on an unlimited device the output file of either run is an initial segment of the
-other's. -/
+accepted) is the same run in every respect — outcome, output file, records, warnings — whether it
+succeeds or fails. -/
 theorem statement_batching_irrelevant (env : Env) (budget : Option Nat) (src src' : Bytes)
     (hb : (planOf src).batches.flatten = (planOf src').batches.flatten)
     (hf : (planOf src).final = (planOf src').final) :
-    (processFile env budget src).outcome = (processFile env budget src').outcome ∧
-    ((processFile env budget src).outcome = .success → processFile env budget src = processFile env budget src') ∧
-    ((processFile env budget src).emitted <+: (processFile env budget src').emitted ∨
-     (processFile env budget src').emitted <+: (processFile env budget src).emitted) := by
-  have h := execPlan_regroup env budget (planOf src) (planOf src') hb hf
+    processFile env budget src = processFile env budget src' := by
   rw [processFile_eq, processFile_eq]
-  refine ⟨h.1, fun hs => ?_, h.2.2⟩
-  obtain ⟨st', hst, _⟩ := execFrom_success (planOf_final src) hs
-  exact h.2.1 ⟨st', hst⟩
+  exact execPlan_regroup env budget (planOf src) (planOf src') hb hf
 
-/-- on an unlimited device also the FILE of one run is an initial segment of the other's -/
-theorem statement_batching_file_prefix (env : Env) (src src' : Bytes)
-    (hb : (planOf src).batches.flatten = (planOf src').batches.flatten)
-    (hf : (planOf src).final = (planOf src').final) :
-    (processFile env none src).file <+: (processFile env none src').file ∨
-    (processFile env none src').file <+: (processFile env none src).file := by
-  rw [processFile_none_file, processFile_none_file]
-  rcases (statement_batching_irrelevant env none src src' hb hf).2.2 with ⟨d, h⟩ | ⟨d, h⟩
-  · left; rw [← h, recsBytes_append, ← List.append_assoc]; exact List.prefix_append _ _
-  · right; rw [← h, recsBytes_append, ← List.append_assoc]; exact List.prefix_append _ _
+/-- the outcomes agree up to the position of the error: in particular one run succeeds iff the other does -/
+theorem success_iff_of_eraseLoc {o o' : Outcome} (h : o.eraseLoc = o'.eraseLoc) : o = .success ↔ o' = .success := by
+  cases o <;> cases o' <;> simp [Outcome.eraseLoc] at h ⊢
 
 /-- **L4 up to source positions (the law a re-layout test checks).** If the statements of two sources
 agree up to source positions (`Stmt.erase`: the same program, laid out differently — statements joined on
 one line, split over several, indented, …) and the front ends end alike up to the position of the
-error, then the outcomes agree up to the position of the error, and a successful run produces the same
-output file, the same records and the same number of warnings. -/
+error, then the outcomes agree up to the position of the error (so one run succeeds iff the other does),
+and the runs produce the same output file, the same records and the same number of warnings — whether
+they succeed or fail (a failing run leaves behind what the statements before the failing one wrote). -/
 theorem layout_irrelevant (env : Env) (budget : Option Nat) (src src' : Bytes)
     (hb : (planOf src).batches.flatten.map Stmt.erase = (planOf src').batches.flatten.map Stmt.erase)
     (hf : (planOf src).final.map Outcome.eraseLoc = (planOf src').final.map Outcome.eraseLoc) :
     (processFile env budget src).outcome.eraseLoc = (processFile env budget src').outcome.eraseLoc ∧
-    ((processFile env budget src).outcome = .success →
-      (processFile env budget src').outcome = .success ∧
-      (processFile env budget src).file = (processFile env budget src').file ∧
-      (processFile env budget src).emitted = (processFile env budget src').emitted ∧
-      (processFile env budget src).warnings.length = (processFile env budget src').warnings.length) := by
+    ((processFile env budget src).outcome = .success ↔ (processFile env budget src').outcome = .success) ∧
+    (processFile env budget src).file = (processFile env budget src').file ∧
+    (processFile env budget src).emitted = (processFile env budget src').emitted ∧
+    (processFile env budget src).warnings.length = (processFile env budget src').warnings.length := by
   have h := execFrom_erase (env := env) (st := st0 budget) hb hf
   rw [processFile_eq, processFile_eq]
-  refine ⟨h.1, fun hs => ?_⟩
-  obtain ⟨st', hst, _⟩ := execFrom_success (planOf_final src) hs
-  refine ⟨?_, h.2 ⟨st', hst⟩⟩
-  have h1 := h.1
-  unfold execPlan at hs ⊢
-  rw [hs] at h1
-  revert h1
-  cases (execFrom env (planOf src').final (st0 budget) (planOf src').batches).outcome <;>
-    simp [Outcome.eraseLoc]
+  exact ⟨h.1, success_iff_of_eraseLoc h.1, h.2⟩
 
 /-! ## L5. joining two lines -/
 
@@ -276,17 +251,16 @@ def tokenText (src : Bytes) : Option (List (TokKind × String)) :=
 
 /-- **End to end.** Two sources that consist of the same tokens (kinds and texts; positions, line
 structure, whitespace and comments arbitrary), the first of which is accepted by the front end: the
-second is accepted too, the outcomes agree up to the position of the error, and if the run succeeds the
-output files, the records and the number of warnings are the same. -/
+second is accepted too, the outcomes agree up to the position of the error (one run succeeds iff the other
+does), and the output files, the records and the number of warnings are the same — for failing runs too. -/
 theorem same_tokens_same_output (env : Env) (budget : Option Nat) (src src' : Bytes) (K : List (TokKind × String))
     (h : tokenText src = some K) (h' : tokenText src' = some K) (hacc : (planOf src).final = none) :
     (planOf src').final = none ∧
     (processFile env budget src).outcome.eraseLoc = (processFile env budget src').outcome.eraseLoc ∧
-    ((processFile env budget src).outcome = .success →
-      (processFile env budget src').outcome = .success ∧
-      (processFile env budget src).file = (processFile env budget src').file ∧
-      (processFile env budget src).emitted = (processFile env budget src').emitted ∧
-      (processFile env budget src).warnings.length = (processFile env budget src').warnings.length) := by
+    ((processFile env budget src).outcome = .success ↔ (processFile env budget src').outcome = .success) ∧
+    (processFile env budget src).file = (processFile env budget src').file ∧
+    (processFile env budget src).emitted = (processFile env budget src').emitted ∧
+    (processFile env budget src).warnings.length = (processFile env budget src').warnings.length := by
   unfold tokenText at h h'
   cases hl : C09.lexLines none Loc.nil 1 (splitLines src) with
   | none => simp [hl] at h
@@ -385,17 +359,26 @@ private def regrouped (p : Plan) : Plan := ⟨[p.batches.flatten], p.final⟩
 example (p : Plan) : (regrouped p).batches.flatten = p.batches.flatten ∧ (regrouped p).final = p.final := by
   simp [regrouped]
 
-/-- **The file of a FAILED run depends on the grouping.** `nosuch;` fails (unknown name) after the handshake.
-With one statement per line the three packets are in the file the process leaves behind; with
-`t.open(); nosuch;` on one line the model reports the state before the failing BATCH: no packet.  The
-outcome is the same (`execPlan_regroup`). -/
+/-- **The file of a FAILED run does not depend on the grouping.** `nosuch;` fails (unknown name) after the
+handshake.  With one statement per line, and with all statements in one batch (as in `t.open(); nosuch;`
+on one line), the three packets of the handshake are in the file the process leaves behind: the run
+stops in the state in which the failing STATEMENT was executed.  (An instance of `execPlan_regroup`.) -/
 private def srcFail : Bytes :=
   b "import ipv4;\nlet t = ipv4::tcp::flow(1.2.3.4:80, 5.6.7.8:90);\nt.open();\nnosuch;\n"
-theorem failed_run_file_depends_on_batching :
+theorem failed_run_file_independent_of_batching :
     (execPlan env0 none (planOf srcFail)).emitted.length = 3 ∧
-    (execPlan env0 none (regrouped (planOf srcFail))).emitted.length = 0 ∧
-    (execPlan env0 none (planOf srcFail)).file ≠ (execPlan env0 none (regrouped (planOf srcFail))).file ∧
-    (execPlan env0 none (planOf srcFail)).outcome = .failure "Name" "" ⟨4, 1⟩ := by decide +kernel
+    (execPlan env0 none (regrouped (planOf srcFail))).emitted.length = 3 ∧
+    (execPlan env0 none (planOf srcFail)).file = (execPlan env0 none (regrouped (planOf srcFail))).file ∧
+    (execPlan env0 none (planOf srcFail)).file.length = 24 + 3 * (16 + 54) ∧
+    (execPlan env0 none (planOf srcFail)).outcome = .failure "Name" "" ⟨4, 1⟩ ∧
+    (execPlan env0 none (regrouped (planOf srcFail))).outcome = .failure "Name" "" ⟨4, 1⟩ := by decide +kernel
+
+/-- the same on source texts: the failing statement on the line of the handshake -/
+private def srcFailJoined : Bytes :=
+  b "import ipv4;\nlet t = ipv4::tcp::flow(1.2.3.4:80, 5.6.7.8:90);\nt.open(); nosuch;\n"
+example : (processFile env0 none srcFailJoined).emitted = (processFile env0 none srcFail).emitted ∧
+    (processFile env0 none srcFailJoined).file = (processFile env0 none srcFail).file ∧
+    (processFile env0 none srcFailJoined).outcome = .failure "Name" "" ⟨3, 11⟩ := by decide +kernel
 
 /-- L6: `sA` and `sB` consist of the same tokens (and `sA` is accepted, see above) -/
 example : tokenText sA = tokenText sB ∧ (tokenText sA).isSome = true := by decide +kernel
